@@ -244,6 +244,67 @@ func TestVerifC18Startup(t *testing.T) {
 			}
 		}
 	}
+	// configurations that are odd rather than wrong (a server entry without a listen address, as a generated template has it; a
+	// negative cache size): whether run() takes them or rejects them is its business, but it neither panics - nor does the close of
+	// a router it did start - and nothing stays open afterwards
+	for _, odd := range []string{"server-entry-without-listen", "server-entry-without-listen:first", "negative-mem-size", "zero-limits"} {
+		cfg := &Config{Upstreams: []UpstreamConfig{{Tag: "u", Addr: "udp://127.0.0.1:53"}}}
+		port := c18FreePort()
+		switch odd {
+		case "server-entry-without-listen":
+			cfg.Servers = []ServerConfig{mkServer("tcp", port), {Protocol: "udp"}, {Protocol: "tcp"}}
+		case "server-entry-without-listen:first":
+			cfg.Servers = []ServerConfig{{Protocol: "tcp"}, mkServer("udp", port)}
+		case "negative-mem-size":
+			cfg.Servers = []ServerConfig{mkServer("udp", port)}
+			cfg.Cache.MemSize = -1
+		case "zero-limits":
+			cfg.Servers = []ServerConfig{mkServer("tcp", port)}
+			cfg.Limiter.Client = ClientLimiterConfig{Limit: 0, Burst: -1}
+		}
+		desc := "odd configuration: " + odd
+		rep.Eval(desc)
+		socksBefore := c18OwnSockets()
+		r, err, p := runCfg(cfg)
+		if p != nil {
+			rep.Violate("C18:startup:panic:"+odd, fmt.Sprintf("run() panicked (%v): %s", p, desc), nil)
+			continue
+		}
+		if err == nil && r != nil {
+			done := make(chan any, 1)
+			go func() {
+				defer func() { done <- recover() }()
+				r.close(nil)
+				r.close(nil)
+			}()
+			select {
+			case p := <-done:
+				if p != nil {
+					rep.Violate("C18:close:panic:"+odd, fmt.Sprintf("closing the router started from an %s panicked: %v", desc, p), nil)
+					continue
+				}
+			case <-time.After(30 * time.Second):
+				rep.Violate("C18:close:blocks:"+odd, "router close did not return within 30 s: "+desc, nil)
+				continue
+			}
+		}
+		var extra []string
+		for i := 0; i < 50; i++ {
+			extra = extra[:0]
+			for ino := range c18OwnSockets() {
+				if !socksBefore[ino] {
+					extra = append(extra, ino)
+				}
+			}
+			if len(extra) == 0 {
+				break
+			}
+			time.Sleep(100 * time.Millisecond)
+		}
+		if len(extra) > 0 {
+			rep.Violate("C18:startup:socket-leaked:"+odd, fmt.Sprintf("after %s (run error: %v) and close the process holds %d socket(s) it did not hold before", desc, err, len(extra)), nil)
+		}
+	}
 	debug.SetGCPercent(gcWas)
 	runtime.GC()
 	// healthy routers: close twice, ports free again
